@@ -1138,9 +1138,9 @@ func TestC16_MaskedFields(t *testing.T) {
 
 type c17Matcher struct {
 	Spec    MatcherSpec `json:"matcher"`
-	Failing bool        `json:"failing"`  // must be named in the error
-	Ignored bool        `json:"ignored"`  // missing path under ErrOnMissingPath(false)
-	Name    string      `json:"name"`     // Any | Type | Custom
+	Failing bool        `json:"failing"` // must be named in the error
+	Ignored bool        `json:"ignored"` // missing path under ErrOnMissingPath(false)
+	Name    string      `json:"name"`    // Any | Type | Custom
 	Comps   []pathComp  `json:"path,omitempty"`
 }
 
